@@ -47,6 +47,7 @@ structure St where
   deadline : Nat := 0              -- deadline of the latest Reset (ghost)
   resets : Nat := 0                -- ghost counters
   recvd  : Nat := 0
+  pool  : List GoTimer := []       -- `timeTimerPool`: the time.Timers handed back by successful Stops
 deriving Repr, DecidableEq
 
 inductive Op
@@ -77,9 +78,15 @@ def step (s : St) : Op → St × Out
   | .reset d =>
     match s.timer with
     | none =>
-      -- first use: time.NewTimer(d) (or a pooled timer re-armed); Read is left as it is
-      ({ s with timer := some { armed := some (s.now + d), chan := none },
-                deadline := s.now + d, resets := s.resets + 1 }, .ok)
+      -- first use: a pooled time.Timer re-armed — with whatever its channel holds —, or time.NewTimer(d);
+      -- Read is left as it is
+      match s.pool with
+      | g :: rest =>
+        ({ s with timer := some { armed := some (s.now + d), chan := g.chan }, pool := rest,
+                  deadline := s.now + d, resets := s.resets + 1 }, .ok)
+      | [] =>
+        ({ s with timer := some { armed := some (s.now + d), chan := none },
+                  deadline := s.now + d, resets := s.resets + 1 }, .ok)
     | some g =>
       -- `if !t.timer.Stop() && !t.Read { <-t.C }`
       if g.armed.isNone && !s.read && g.chan.isNone then (s, .blocked)
@@ -96,7 +103,11 @@ def step (s : St) : Op → St × Out
     | none => (s, .none)       -- C is nil: a receive never succeeds
   | .stop =>
     match s.timer with
-    | some g => ({ s with timer := none, read := false }, .stopped g.armed.isSome)
+    | some g =>
+      -- `if res { timeTimerPool.Put(t.timer) }`: only a timer that was still armed goes back to the pool
+      ({ s with timer := none, read := false,
+                pool := if g.armed.isSome then { armed := none, chan := g.chan } :: s.pool else s.pool },
+       .stopped g.armed.isSome)
     | none => ({ s with timer := none, read := false }, .stopped false)
 
 def run (s : St) : List Op → St × List Out
